@@ -211,7 +211,7 @@ class WsgiRig:
             seen['markup'] = show(mk) if mk is not None else 'no-markup'
             rq.setup(dict(max_memfile_size=1 << 20, errors_map=app.config.errors_map))
             forms, files = rq.forms, rq.files
-            seen['forms'] = sorted((k, repr(forms.getall(k) if hasattr(forms, 'getall') else forms[k])) for k in forms)
+            seen['forms'] = sorted((k, repr(forms[k])) for k in forms)
             seen['files'] = sorted((k, repr([(f.filename, f.file.read()) for f in
                                              (files[k] if isinstance(files[k], list) else [files[k]])])) for k in files)
             return 'ok'
